@@ -350,7 +350,7 @@ pub fn boundary_lits(e: &str) -> Vec<String> {
                       "4611686018427387904", "9223372036854775806", "9223372036854775807",
                       // not literals of eval_i64 at all: whatever stands around them, the call must return Err
                       "9223372036854775808", "18446744073709551616"],
-        "num" => vec!["0", "1", "2", "3", "0.5", "2.5", "20", "21", "63", "4294967296", "3037000500", "9007199254740992", "9007199254740993",
+        "num" => vec!["0", "1", "2", "3", "0.5", ".5", "2.5", "20", "21", "63", "4294967296", "3037000500", "9007199254740992", "9007199254740993",
                       "9223372036854775808.", "18446744073709551616.", "9007199254740993.",
                       "4611686018427387904", "9223372036854775807", "9223372036854775806.", "0.1", "1.5"],
         "f64" => vec!["0", "1", "2", "3", "0.5", "0.1", "0.2", "2.5", "9007199254740992", "9007199254740993", "4.9406564584124654e-324", "1.7976931348623157e308",
@@ -358,7 +358,7 @@ pub fn boundary_lits(e: &str) -> Vec<String> {
                       "179769313486231570000000000000000000000000000000000000000000000000000000000000000000000000000000000000000000000000000000000000000000000000000000000000000000000000000000000000000000000000000000000000000000000000000000000000000000000000000000000000000000000000000000000000000000000000000000000000000000000",
                       "0.000000000000000000000000000000000000000000000000000000000000000000000000000000000000000000000000000000000000000000000000000000000000000000000000000000000000000000000000000000000000000000000000000000000000000000000000000000000000000000000000000000000000000000000000000000000000000000000000000000000000000000000000000000005",
                       "170", "171", "1.5", "3.5"],
-        "dec" => vec!["0", "1", "2", "3", "0.1", "0.2", "1.10", "2.5", "0.5", "79228162514264337593543950335", "7922816251426433759354395033", "0.0000000000000000000000000001",
+        "dec" => vec!["0", "1", "2", "3", "0.1", "0.2", "1.10", "2.5", "0.5", ".5", ".25", "5.", "79228162514264337593543950335", "7922816251426433759354395033", "0.0000000000000000000000000001",
                       // the integer-type boundaries (a tokenizer or an operation may take a machine-integer detour)
                       "9223372036854775808", "9999999999999999999", "18446744073709551616", "4294967296", "9223372036854775807.5",
                       "39614081257132168796771975168", "1.0000000000000000000000000001", "9999999999999999999999999999", "27", "28", "0.3"],
@@ -460,6 +460,38 @@ pub fn related_foreign(chars: &[String]) -> Vec<char> {
         }
     }
     v
+}
+
+/// the text of a character-level behaviour (white space and foreign characters chosen by idx), the assignment its tokens carry, its kinds
+pub fn string_parts(bv: &Value, idx: u64, foreign: Option<char>) -> (String, crate::render::Asg, Vec<String>, Vec<String>) {
+    use crate::render::Asg;
+    use crate::vocab::{concrete, FOREIGN, WHITE_SPACE};
+    let chars: Vec<String> = bv["chars"].as_array().unwrap().iter().map(|c| c.as_str().unwrap().to_string()).collect();
+    let mut text = String::new();
+    for (i, c) in chars.iter().enumerate() {
+        match c.as_str() {
+            "WS" => text.push(WHITE_SPACE[(idx as usize + i) % 25]),
+            "OTHER" => text.push(foreign.unwrap_or(FOREIGN[(idx as usize + i) % FOREIGN.len()])),
+            _ => text.push_str(&concrete(c)),
+        }
+    }
+    let toks = bv["toks"].as_array().unwrap();
+    let mut asg = Asg::default();
+    let mut kinds = Vec::new();
+    for (i, t) in toks.iter().enumerate() {
+        let p = i + 1;
+        let k = t["k"].as_str().unwrap();
+        kinds.push(k.to_string());
+        let txt: String = t["txt"].as_array().map(|a| a.iter().map(|c| c.as_str().unwrap()).collect::<Vec<_>>().concat()).unwrap_or_default();
+        match k {
+            "num" => { asg.lits.insert(p, (txt, t["im"].as_bool().unwrap_or(false))); }
+            "sup" => { asg.sups.insert(p, txt); }
+            "const" => { let f = t["fn"].as_str().unwrap_or(""); asg.consts.insert(p, if f == "E" { "E".into() } else { "PI".into() }); }
+            "f1" | "f2" | "fv" | "fa" => { asg.fns.insert(p, t["fn"].as_str().unwrap().to_string()); }
+            _ => {}
+        }
+    }
+    (text, asg, kinds, chars)
 }
 
 pub fn replay_string_with(out: &mut Out, e: &str, bv: &Value, phs: &[Val], idx: u64, foreign: Option<char>) -> (String, Vec<(Val, Outcome)>) {
